@@ -6,6 +6,7 @@ import (
 	"fmt"
 	"os"
 	"path/filepath"
+	"strings"
 
 	ccpb "github.com/google/go-tdx-guest/proto/checkconfig"
 	"github.com/google/go-tdx-guest/testing/testdata"
@@ -79,6 +80,30 @@ func c02Run(r *core.Run) {
 			}
 			add("matrix:quote-under-"+x, q, pn, e, why)
 		}
+	}
+	// 1b. the same matrix rows with Options.Now unset (the library reads the clock itself): the pool
+	// must be honoured all the same.  Windows are years wide, so the wall clock does not matter.
+	for _, pn := range []string{"A", "B"} {
+		for _, x := range []string{"A", "B"} {
+			q := qA
+			if x == "B" {
+				q = qB
+			}
+			e, why := world.MustReject, "root of PKI "+x+" is not in the pool (verification time left to the library)"
+			if pn == x {
+				e, why = world.MustAccept, "honest quote under a listed root (verification time left to the library)"
+			}
+			cases = append(cases, c02Case{"now-unset:quote-under-" + x + "|pool=" + pn, q, pools[pn], e, why})
+		}
+	}
+	// 1c. with no pool the embedded Intel root is the only anchor: a hierarchy whose root copies the
+	// embedded root's raw subject, serial, key identifier and validity (own key) is not trusted.
+	if intel := embeddedIntelRoot(); intel != nil {
+		I := world.NewLookalikeOf(t, "I", intel, w.Epoch)
+		qI, _ := quoteUnder(w, I, nil)
+		cases = append(cases, c02Case{"intel-lookalike:quote-under-I|pool=nil", qI, nil, world.MustReject, "the quote's root only looks like the embedded Intel root (same subject, serial and key identifier, other key)"})
+		cases = append(cases, c02Case{"intel-lookalike:quote-under-I|pool=A", qI, pools["A"], world.MustReject, "root of PKI I is not in the pool"})
+		r.Probe("intel_lookalike_root")
 	}
 	// 2. one chain element replaced by its look-alike (pool = {A})
 	{
@@ -163,8 +188,12 @@ func c02Run(r *core.Run) {
 			continue
 		}
 		raw := c.q.Bytes()
-		o := verifyRaw(raw, mkOpts(O0, &failGetter{}, c.pool, w.Times))
-		o2 := verifyMsg(c.q.Proto(0), mkOpts(O0, &failGetter{}, c.pool, w.Times))
+		op1, op2 := mkOpts(O0, &failGetter{}, c.pool, w.Times), mkOpts(O0, &failGetter{}, c.pool, w.Times)
+		if strings.HasPrefix(c.name, "now-unset:") {
+			op1.Now, op2.Now = nil, nil
+		}
+		o := verifyRaw(raw, op1)
+		o2 := verifyMsg(c.q.Proto(0), op2)
 		r.Eval()
 		r.Eventf("%s expect=%s -> raw:%s msg:%s", c.name, c.expect, errClass(o), errClass(o2))
 		r.State("%s", c.name)
@@ -204,6 +233,23 @@ func c02Run(r *core.Run) {
 	// 5. root-of-trust configurations (bundle files on a simulated disk, inline PEM)
 	c02RootOfTrust(r, w, A, B, C, qA, qB)
 	r.Sample("world %s with look-alike PKI B and unrelated PKI C: %d (quote,pool) cases + root-of-trust configurations; e.g. role:tcb-signer+sgxext-as-leaf (QE report signed by the TCB-signing key) rejected", w.Describe(), len(cases))
+}
+
+// embeddedIntelRoot reads the root certificate the library embeds (from the repository tree).
+func embeddedIntelRoot() *x509.Certificate {
+	b, err := os.ReadFile(filepath.Join(repoDir(), "verify/trusted_root.pem"))
+	if err != nil {
+		return nil
+	}
+	blk, _ := pem.Decode(b)
+	if blk == nil {
+		return nil
+	}
+	c, err := x509.ParseCertificate(blk.Bytes)
+	if err != nil {
+		return nil
+	}
+	return c
 }
 
 func contains(set, x string) bool {
@@ -403,6 +449,6 @@ func init() {
 			return 48
 		},
 		Run:       c02Run,
-		MustProbe: []string{"lookalike_own_key_ids", "lookalike_same_key_ids", "root_of_trust_configs", "empty_config_uses_embedded_root"},
+		MustProbe: []string{"lookalike_own_key_ids", "lookalike_same_key_ids", "root_of_trust_configs", "empty_config_uses_embedded_root", "intel_lookalike_root"},
 	})
 }
